@@ -223,16 +223,20 @@ theorem resolveTransition_errE (root sc : Scope) (conf : Forest) (dest : SPath) 
       rw [Forest.reduceGet_err _ _ e he]; exact PR.ErrE.err rfl
     · exact PR.ErrE.err rfl
     · split
-      · exact PR.ErrE.oof
-      · refine PR.ErrE.bind (exitStates_errE _ _ _ _) ?_
-        intro exits
-        refine PR.ErrE.bind (enterRoot_errE _ _ _) ?_
-        intro r
-        exact PR.ErrE.ok
+      · rename_i e he
+        rw [Forest.reduceGet_err _ _ e he]; exact PR.ErrE.err rfl
+      · exact PR.ErrE.err rfl
+      · split
+        · exact PR.ErrE.oof
+        · refine PR.ErrE.bind (exitStates_errE _ _ _ _) ?_
+          intro exits
+          refine PR.ErrE.bind (enterRoot_errE _ _ _) ?_
+          intro r
+          exact PR.ErrE.ok
 
-theorem cerLoop_errE (cfg : NCfg) (ev : Nat) : ∀ (l : List SVal), (cerLoop cfg ev l).ErrE
+theorem cerLoop_errE (cfg : NCfg) (ev : Nat) : ∀ (l : List SPath), (cerLoop cfg ev l).ErrE
   | [] => PR.ErrE.ok
-  | .name p :: r => by
+  | p :: r => by
     unfold cerLoop
     split
     · exact PR.ErrE.err rfl
@@ -241,16 +245,6 @@ theorem cerLoop_errE (cfg : NCfg) (ev : Nat) : ∀ (l : List SVal), (cerLoop cfg
         · exact PR.ErrE.err rfl
         · exact PR.ErrE.err rfl
       · exact cerLoop_errE cfg ev r
-  | .nil :: r => by
-    unfold cerLoop
-    split
-    · exact PR.ErrE.err rfl
-    · exact PR.ErrE.err rfl
-  | .cons a b :: r => by
-    unfold cerLoop
-    split
-    · exact PR.ErrE.err rfl
-    · exact PR.ErrE.err rfl
 
 /-- an engine computation fails with engine kinds only -/
 def ErrE {α} (r : NR α) : Prop := ∀ e s', r = .err e s' → e.isEngine = true
@@ -321,7 +315,7 @@ theorem nchangeState_errE (hR : NoRaise sc) (hC : NoCmds sc) (scope : Scope) (x 
   · rename_i e he
     exact ErrE.err (resolveTransition_errE _ _ _ _ e he)
   · exact ErrE.oof
-  · exact ErrE.bind (exitAll_errE hR hC x _ s) (fun _ s1 => enterAll_errE hR hC x _ _)
+  · exact ErrE.bind (exitAll_errE hR hC x _ _) (fun _ s1 => enterAll_errE hR hC x _ _)
 
 theorem nexecute_errE (hR : NoRaise sc) (hC : NoCmds sc) (scope : Scope) (x : Ctx) (tr : TRef) (t : NTrans) (s : NSt) :
     ErrE (nexecute sub sc cfg scope x tr t s) := by
@@ -384,30 +378,29 @@ theorem triggerNested_errE (hR : NoRaise sc) (hC : NoCmds sc) (scope : Scope) (x
   · exact ErrE.err rfl
   · split
     · exact ErrE.oof
-    · exact ErrE.bind (tnLoop_errE hR hC scope x ev ts _ _ s) (fun _ _ => ErrE.ok)
+    · exact ErrE.bind (tnLoop_errE hR hC scope x ev ts _ _ s) (fun _ _ => by split <;> exact ErrE.ok)
 
 theorem ten_errE (hR : NoRaise sc) (hC : NoCmds sc) (x : Ctx) (ev : Nat) :
-    ∀ (tree : Forest) (scope : Scope) (res : List (Nat × Bool)) (s : NSt),
-    ErrE (ten sub sc cfg x ev scope tree res s) := by
+    ∀ (tree : Forest) (scope : Scope) (res : List (Nat × Bool)) (offered : Bool) (s : NSt),
+    ErrE (ten sub sc cfg x ev scope tree res offered s) := by
   intro tree
   induction tree with
-  | nil => intro scope res s; unfold ten; exact ErrE.ok
+  | nil => intro scope res offered s; unfold ten; exact ErrE.ok
   | cons key value rest ihv ihr =>
-    intro scope res s
+    intro scope res offered s
     unfold ten
     refine ErrE.bind ?_ ?_
     · split
       · exact ErrE.ok
       · split
         · exact ErrE.err rfl
-        · exact ErrE.bind (ihv _ [] s) (fun _ _ => ErrE.ok)
+        · exact ErrE.bind (ihv _ [] false s) (fun _ _ => ErrE.ok)
     · intro res1 s1
-      refine ErrE.bind ?_ (fun res2 s2 => ihr scope res2 s2)
       split
       · split
-        · exact ErrE.bind (triggerNested_errE hR hC scope x ev _ s1) (fun _ _ => ErrE.ok)
-        · exact ErrE.ok
-      · exact ErrE.ok
+        · exact ErrE.bind (triggerNested_errE hR hC scope x ev _ s1) (fun _ s2 => ihr scope _ true s2)
+        · exact ihr scope res1 offered s1
+      · exact ihr scope res1 offered s1
 
 theorem checkEventResult_errE (cfg : NCfg) (res : Option Bool) (ev : Nat) (s : NSt) :
     ErrE (checkEventResult cfg res ev s) := by
@@ -423,7 +416,7 @@ theorem checkEventResult_errE (cfg : NCfg) (res : Option Bool) (ev : Nat) (s : N
 theorem triggerEventBody_errE (hR : NoRaise sc) (hC : NoCmds sc) (x : Ctx) (ev : Nat) (s : NSt) :
     ErrE (triggerEventBody sub sc cfg x ev s) := by
   unfold triggerEventBody
-  refine ErrE.bind (ten_errE hR hC x ev _ _ _ s) ?_
+  refine ErrE.bind (ten_errE hR hC x ev _ _ _ _ s) ?_
   intro r s1
   exact ErrE.bind (checkEventResult_errE cfg _ ev s1) (fun _ _ => ErrE.ok)
 
@@ -661,16 +654,18 @@ theorem triggerNested_presG (hC : NoCmds sc) (hcl : ClosedG cfg sub sc R Q) (sco
     · exact PresV.oof
     · refine PresV.bind (tnLoop_presG hC hcl scope x ev ts hw _ _ s) ?_
       intro _ s1 _ f1
-      exact PresV.ok f1
+      split
+      · exact PresV.ok f1
+      · exact PresV.ok (s := { s1 with result := some true }) f1
 
 theorem ten_presG (hC : NoCmds sc) (hcl : ClosedG cfg sub sc R Q) (x : Ctx) (ev : Nat) :
-    ∀ (tree : Forest) (scope : Scope) (res : List (Nat × Bool)) (s : NSt),
-    cfg.root.walkTo scope.pre = some scope → PresV R (ten sub sc cfg x ev scope tree res s) s.view := by
+    ∀ (tree : Forest) (scope : Scope) (res : List (Nat × Bool)) (offered : Bool) (s : NSt),
+    cfg.root.walkTo scope.pre = some scope → PresV R (ten sub sc cfg x ev scope tree res offered s) s.view := by
   intro tree
   induction tree with
-  | nil => intro scope res s _; unfold ten; exact PresV.ok (hcl.refl _)
+  | nil => intro scope res offered s _; unfold ten; exact PresV.ok (hcl.refl _)
   | cons key value rest ihv ihr =>
-    intro scope res s hw
+    intro scope res offered s hw
     unfold ten
     refine PresV.bind ?_ ?_
     · split
@@ -678,20 +673,18 @@ theorem ten_presG (hC : NoCmds sc) (hcl : ClosedG cfg sub sc R Q) (x : Ctx) (ev 
       · split
         · exact PresV.err (hcl.refl _)
         · rename_i inner he
-          refine PresV.bind (ihv inner [] s (Scope.walkTo_enter hw he)) ?_
+          refine PresV.bind (ihv inner [] false s (Scope.walkTo_enter hw he)) ?_
           intro _ s1 _ f1
           exact PresV.ok f1
     · intro res1 s1 _ f1
-      refine PresV.weakenG hcl f1 (PresV.bind ?_ ?_)
+      refine PresV.weakenG hcl f1 ?_
+      split
       · split
-        · split
-          · refine PresV.bind (triggerNested_presG hC hcl scope x ev _ hw s1) ?_
-            intro _ s2 _ f2
-            exact PresV.ok f2
-          · exact PresV.ok (hcl.refl _)
-        · exact PresV.ok (hcl.refl _)
-      · intro res2 s2 _ f2
-        exact PresV.weakenG hcl f2 (ihr scope res2 s2 hw)
+        · refine PresV.bind (triggerNested_presG hC hcl scope x ev _ hw s1) ?_
+          intro _ s2 _ f2
+          exact PresV.weakenG hcl f2 (ihr scope _ true s2 hw)
+        · exact ihr scope res1 offered s1 hw
+      · exact ihr scope res1 offered s1 hw
 
 theorem checkEventResult_presG (hcl : ClosedG cfg sub sc R Q) (res : Option Bool) (ev : Nat) (s : NSt) :
     PresV R (checkEventResult cfg res ev s) s.view := by
@@ -706,7 +699,7 @@ theorem checkEventResult_presG (hcl : ClosedG cfg sub sc R Q) (res : Option Bool
 theorem triggerEventBody_presG (hC : NoCmds sc) (hcl : ClosedG cfg sub sc R Q) (x : Ctx) (ev : Nat) (s : NSt) :
     PresV R (triggerEventBody sub sc cfg x ev s) s.view := by
   unfold triggerEventBody
-  refine PresV.bind (ten_presG hC hcl x ev s.conf cfg.root [] s (NCfg.walkTo_root cfg)) ?_
+  refine PresV.bind (ten_presG hC hcl x ev s.conf cfg.root [] false s (NCfg.walkTo_root cfg)) ?_
   intro r s1 _ f1
   refine PresV.weakenG hcl f1 (PresV.bind (checkEventResult_presG hcl _ ev s1) ?_)
   intro b s2 _ f2
@@ -771,8 +764,8 @@ theorem finallyClause_presG (hC : NoCmds sc) (hcl : ClosedG cfg sub sc R Q) (x :
 
 theorem ntriggerEvent_presG (hC : NoCmds sc) (hcl : ClosedG cfg sub sc R Q) (x : Ctx) (ev : Nat) (s : NSt) :
     PresV R (ntriggerEvent sub sc cfg x ev s) s.view := by
-  have hbody : PresV R (triggerEventBody sub sc cfg x ev { s with result := none }) s.view :=
-    triggerEventBody_presG hC hcl x ev { s with result := none }
+  have hbody : PresV R (triggerEventBody sub sc cfg x ev { s with result := none, exited := [] }) s.view :=
+    triggerEventBody_presG hC hcl x ev { s with result := none, exited := [] }
   unfold ntriggerEvent
   exact finallyClause_presG hC hcl x _ _ (exceptClause_presG hC hcl x _ _ hbody)
 
@@ -882,8 +875,8 @@ theorem triggerNested_pres (hC : NoCmds sc) (hcl : Closed cfg sub sc R) (scope :
   triggerNested_presG hC hcl.toG scope x ev ts hw s
 
 theorem ten_pres (hC : NoCmds sc) (hcl : Closed cfg sub sc R) (x : Ctx) (ev : Nat) :
-    ∀ (tree : Forest) (scope : Scope) (res : List (Nat × Bool)) (s : NSt),
-    cfg.root.walkTo scope.pre = some scope → PresV R (ten sub sc cfg x ev scope tree res s) s.view :=
+    ∀ (tree : Forest) (scope : Scope) (res : List (Nat × Bool)) (offered : Bool) (s : NSt),
+    cfg.root.walkTo scope.pre = some scope → PresV R (ten sub sc cfg x ev scope tree res offered s) s.view :=
   ten_presG hC hcl.toG x ev
 
 theorem checkEventResult_pres (hcl : Closed cfg sub sc R) (res : Option Bool) (ev : Nat) (s : NSt) :
